@@ -154,6 +154,8 @@ pub enum Op {
     Schedule(Sel, u8),
     WakeTask(Sel, u8),
     StreamPush(Sel),
+    /// an item the stream hands out only after having woken itself once from inside poll_next
+    StreamPushSelfWake(Sel),
     StreamEnd(Sel),
     /// lifecycle source: return a synthetic event from the next before_sleep
     ArmSynth(Sel),
